@@ -97,7 +97,7 @@ def cli_formats(ctx, files):
                     else:
                         triples = []
                         for line in r.output.splitlines():
-                            if line.startswith("::"):
+                            if line.startswith(("::warning ", "::error ", "::notice ")):
                                 meta = line.split("::")[1]
                                 kv = dict(x.split("=", 1) for x in meta.split(" ", 1)[1].split(",") if "=" in x)
                                 code = line.split("::", 2)[2].split(":", 1)[0].strip()
